@@ -595,6 +595,9 @@ func laws() []law {
 		{name: "slice-set-empty-is-del", a: `setpath([$x]; []) == delpaths([[$x]])`, in: arrIn, x: sliceObj, judges: []string{"setpath", "delpaths"}},
 		{name: "slice-set-replaces", a: `. as $v | (($v | length) - ($v | .[$x.start:] | length)) as $s | setpath([$x]; ["N", "M", "K"]) == ((delpaths([[$x]]) | .[:$s]) + ["N", "M", "K"] + (delpaths([[$x]]) | .[$s:]))`,
 			in: arrIn, x: sliceObj, judges: []string{"setpath"}},
+		{name: "string-index-codepoints", a: `.[$x]`, b: `explode | .[$x] | if . == null then null else [.] | implode end`, in: validStr, x: func(_, x any) bool { i, ok := x.(int); return ok && i > -1000 && i < 1000 }, judges: []string{"_index"}},
+		{name: "alternative-is-falsy-test", a: `_alternative(.; $x)`, b: `if . == null or . == false then $x else . end`, in: func(any) bool { return true }, x: func(_, _ any) bool { return true }, judges: []string{"_alternative"}},
+		{name: "alternative-update", a: `[., .] | .[0] //= $x | .[0]`, b: `if . == null or . == false then $x else . end`, in: func(v any) bool { return noNaN(v) }, x: func(_, x any) bool { return noNaN(x) }, judges: []string{"_alternative"}},
 		{name: "string-slice-codepoints", a: `.[$x.start:$x.end] == (explode | .[$x.start:$x.end] | implode)`, in: validStr, x: sliceObj, judges: []string{"_index", "_slice"}},
 		{name: "slice-concat", a: `(.[:$x] + .[$x:]) == .`, in: func(v any) bool { return (isArr(v) && noNaN(v)) || isStr(v) }, x: func(_, x any) bool { _, ok := x.(int); return ok }, judges: []string{}},
 		{name: "index-is-slice-of-one", a: `. as $v | if $x >= 0 and $x < length or $x < 0 and -$x <= length then [.[$x]] == .[$x:($x + 1 | if . == 0 then null else . end)] else .[$x] == null end`,
